@@ -434,18 +434,20 @@ func c15Compose(w *World, r *Recorder, sf *types.Named) {
 
 // ---- H4 ----
 
-func c15Walker(w *World, r *Recorder, name string) {
-	fn := w.encWalker(name)
-	if fn == nil {
-		r.Undecide("C15-H4", name, "-", "walker not found")
-		return
-	}
-	codec := "cbor"
-	if strings.HasSuffix(name, "JSON") {
-		codec = "json"
-	}
-	populate := strings.HasPrefix(name, "doPopulate")
-	// the field loop: header compares a counter with NumField()
+// h4Region: the part of a walker in which one field is handled — the body of
+// the field loop, or (hosted form) the body of the per-field visitor.
+type h4Region struct {
+	fn     *ssa.Function
+	in     func(b *ssa.BasicBlock) bool
+	start  *ssa.BasicBlock
+	isCont func(b *ssa.BasicBlock) bool // the field is skipped: on to the next one
+	isFail func(b *ssa.BasicBlock) bool // the walk ends with an error
+	act    *ssa.BasicBlock
+	omit   ssa.Value
+}
+
+// fieldLoopHeader: the block whose If compares a counter with NumField().
+func fieldLoopHeader(fn *ssa.Function) *ssa.BasicBlock {
 	var header *ssa.BasicBlock
 	for _, b := range fn.Blocks {
 		ifi, ok := b.Instrs[len(b.Instrs)-1].(*ssa.If)
@@ -460,6 +462,104 @@ func c15Walker(w *World, r *Recorder, name string) {
 			header = b
 		}
 	}
+	return header
+}
+
+// errorPropagated: the call's (error) result is tested against nil and
+// returned as the function's last result when it is not nil.
+func errorPropagated(c *ssa.Call) bool {
+	for _, ref := range *c.Referrers() {
+		bo, ok := ref.(*ssa.BinOp)
+		if !ok || bo.Op != token.NEQ || !(isNilConst(bo.X) || isNilConst(bo.Y)) {
+			continue
+		}
+		for _, r2 := range *bo.Referrers() {
+			ifi, ok := r2.(*ssa.If)
+			if !ok {
+				continue
+			}
+			t := ifi.Block().Succs[0]
+			for i := 0; i < 3 && t != nil; i++ {
+				if ret, ok := t.Instrs[len(t.Instrs)-1].(*ssa.Return); ok {
+					if len(ret.Results) > 0 && ret.Results[len(ret.Results)-1] == ssa.Value(c) {
+						return true
+					}
+					break
+				}
+				if len(t.Succs) != 1 {
+					break
+				}
+				t = t.Succs[0]
+			}
+		}
+	}
+	return false
+}
+
+func c15Walker(w *World, r *Recorder, name string) {
+	fn := w.encWalker(name)
+	if fn == nil {
+		r.Undecide("C15-H4", name, "-", "walker not found")
+		return
+	}
+	codec := "cbor"
+	if strings.HasSuffix(name, "JSON") {
+		codec = "json"
+	}
+	populate := strings.HasPrefix(name, "doPopulate")
+	// the field loop: header compares a counter with NumField(). Hosted form:
+	// the walker hands a per-field visitor (a closure or function) to a
+	// shared function that owns the loop and calls the visitor for each field.
+	host := fn
+	var visitor *ssa.Function
+	visitIdx := -1
+	header := fieldLoopHeader(fn)
+	if header == nil {
+		for _, b := range fn.Blocks {
+			for _, in := range b.Instrs {
+				c, ok := in.(*ssa.Call)
+				if !ok {
+					continue
+				}
+				g := c.Call.StaticCallee()
+				if g == nil || g.Blocks == nil || g.Pkg != w.Enc || fieldLoopHeader(g) == nil {
+					continue
+				}
+				for i, a := range c.Call.Args {
+					var h *ssa.Function
+					for {
+						if ct, ok := a.(*ssa.ChangeType); ok {
+							a = ct.X
+							continue
+						}
+						break
+					}
+					switch x := a.(type) {
+					case *ssa.MakeClosure:
+						h, _ = x.Fn.(*ssa.Function)
+					case *ssa.Function:
+						h = x
+					}
+					if h != nil && h.Blocks != nil && i < len(g.Params) {
+						host, visitor, visitIdx = g, h, i
+					}
+				}
+			}
+		}
+		if visitor != nil {
+			header = fieldLoopHeader(host)
+			// the walker returns what the host returns
+			okRet := false
+			for _, b := range fn.Blocks {
+				if ret, ok := b.Instrs[len(b.Instrs)-1].(*ssa.Return); ok && len(ret.Results) > 0 {
+					if c, ok := ret.Results[len(ret.Results)-1].(*ssa.Call); ok && c.Call.StaticCallee() == host {
+						okRet = true
+					}
+				}
+			}
+			r.Check(okRet, "C15-H4", name+"#hosted", w.FnPos(fn), "the walker returns the result of the shared field loop it hands its visitor to", "the result of the shared field loop is not what the walker returns")
+		}
+	}
 	if header == nil {
 		r.Undecide("C15-H4", name+"#field-loop", w.FnPos(fn), "no loop over NumField() found")
 		return
@@ -471,7 +571,17 @@ func c15Walker(w *World, r *Recorder, name string) {
 			latches = append(latches, p)
 		}
 	}
-	// ACT: the call that stores / consumes the field
+	isAct := func(c *ssa.Call) bool {
+		cn := calleeName(&c.Call)
+		switch {
+		case !populate && strings.HasSuffix(cn, ").Add") && c.Call.StaticCallee() != nil && w.InRepo(c.Call.StaticCallee()):
+			return true
+		case populate && (strings.HasSuffix(cn, "DecMode.Unmarshal") || cn == "encoding/json.Unmarshal"):
+			return true
+		}
+		return false
+	}
+	// ACT: the call that stores / consumes the field (hosted: the visitor call)
 	var act *ssa.BasicBlock
 	var actCall *ssa.Call
 	var lookupTag string
@@ -484,16 +594,15 @@ func c15Walker(w *World, r *Recorder, name string) {
 			}
 			cn := calleeName(&c.Call)
 			switch {
-			case !populate && strings.HasSuffix(cn, ").Add") && c.Call.StaticCallee() != nil && w.InRepo(c.Call.StaticCallee()):
+			case visitor != nil && c.Call.Value == ssa.Value(host.Params[visitIdx]) && !c.Call.IsInvoke():
 				act, actCall = b, c
-			case populate && (strings.HasSuffix(cn, "DecMode.Unmarshal") || cn == "encoding/json.Unmarshal"):
+			case visitor == nil && isAct(c):
 				act, actCall = b, c
 			case cn == "(reflect.StructTag).Lookup":
 				if k, ok := c.Call.Args[1].(*ssa.Const); ok {
 					lookupTag = constStringVal(k)
 				}
 			}
-			_ = actCall
 		}
 		for _, in := range b.Instrs {
 			if phi, ok := in.(*ssa.Phi); ok && isBoolType(phi.Type()) && phi.Comment == "isOmitEmpty" {
@@ -549,12 +658,112 @@ func c15Walker(w *World, r *Recorder, name string) {
 		}
 	}
 	if act == nil {
-		r.Refute("C15-H4", name+"#act", w.FnPos(fn), "the field loop never stores / decodes a field")
+		r.Refute("C15-H4", name+"#act", w.FnPos(host), "the field loop never stores / decodes a field")
 		return
 	}
-	r.Check(lookupTag == codec, "C15-H4", name+"#tag", w.FnPos(fn), "fields are selected by the `"+codec+"` struct tag", fmt.Sprintf("the walker looks up struct tag %q, not %q", lookupTag, codec))
+	r.Check(lookupTag == codec, "C15-H4", name+"#tag", w.FnPos(host), "fields are selected by the `"+codec+"` struct tag", fmt.Sprintf("the walker looks up struct tag %q, not %q", lookupTag, codec))
 
-	// reachability within one iteration (not through the header)
+	omitOK, omitWhy := omitDefinition(omitPhi)
+	r.Check(omitPhi != nil && omitOK, "C15-H4", name+"#omitempty-definition", w.FnPos(host), "isOmitEmpty is true only via option == \"omitempty\" over the options after the first", "isOmitEmpty is not defined as 'some option after the key equals \"omitempty\"': "+omitWhy)
+
+	classes := map[string]bool{}
+	c15ClassifyRegion(w, r, name, h4Region{
+		fn: host, in: func(b *ssa.BasicBlock) bool { return li.blocks[b] }, start: header.Succs[0],
+		isCont: func(b *ssa.BasicBlock) bool { return b == header || isLatch(b, latches) },
+		isFail: func(b *ssa.BasicBlock) bool { return !li.blocks[b] || returnsError(b, li) },
+		act:    act, omit: omitPhi,
+	}, codec, populate, classes)
+	if visitor != nil {
+		// the visitor: its failure ends the walk with that error; inside it a
+		// field is skipped (nil returned before the act) only under the same
+		// conditions, with the omitempty flag received from the loop
+		r.Check(errorPropagated(actCall), "C15-H4", name+"#visitor-error", w.InstrPos(actCall), "an error of the per-field visitor ends the walk and is returned", "an error returned by the per-field visitor is not returned by the walk")
+		var vomit ssa.Value
+		for j, a := range actCall.Call.Args {
+			if a == omitPhi && j < len(visitor.Params) {
+				vomit = visitor.Params[j]
+			}
+		}
+		if vomit == nil {
+			r.Refute("C15-H4", name+"#visitor-omitempty", w.InstrPos(actCall), "the per-field visitor is not handed the omitempty flag computed from the tag")
+		}
+		var vact *ssa.BasicBlock
+		for _, b := range visitor.Blocks {
+			for _, in := range b.Instrs {
+				if c, ok := in.(*ssa.Call); ok && isAct(c) {
+					vact = b
+				}
+			}
+		}
+		if vact == nil {
+			r.Refute("C15-H4", name+"#act", w.FnPos(visitor), "the per-field visitor never stores / decodes the field")
+			return
+		}
+		c15ClassifyRegion(w, r, name, h4Region{
+			fn: visitor, in: func(b *ssa.BasicBlock) bool { return true }, start: visitor.Blocks[0],
+			isCont: func(b *ssa.BasicBlock) bool {
+				ret, ok := b.Instrs[len(b.Instrs)-1].(*ssa.Return)
+				return ok && len(ret.Results) > 0 && isNilConst(ret.Results[len(ret.Results)-1])
+			},
+			isFail: func(b *ssa.BasicBlock) bool { return returnsError(b, nil) },
+			act:    vact, omit: vomit,
+		}, codec, populate, classes)
+	}
+	want := []string{"embedded", "untagged", "dash"}
+	if populate {
+		want = append(want, "absent∧omitempty", "absent-mandatory-error")
+	} else {
+		want = append(want, "omitempty∧zero")
+	}
+	for _, c := range want {
+		if !classes[c] {
+			what := map[string]string{
+				"embedded": "embedded structs are not left to the recursion", "untagged": "fields without the codec's tag are not skipped",
+				"dash": "a field tagged \"-\" is not skipped", "omitempty∧zero": "a zero omitempty field is not omitted",
+				"absent∧omitempty": "an absent omitempty field is not tolerated", "absent-mandatory-error": "a missing key without omitempty is not an error",
+			}[c]
+			r.Refute("C15-H4", name+"#missing:"+c, w.FnPos(host), what)
+		}
+	}
+	// recursion over collected embeds with the same map
+	okRec := false
+	for _, b := range host.Blocks {
+		for _, in := range b.Instrs {
+			if c, ok := in.(*ssa.Call); ok && c.Call.StaticCallee() == host {
+				same := true
+				for i, a := range c.Call.Args {
+					ts := a.Type().String()
+					if ts == "reflect.Type" || ts == "reflect.Value" {
+						if !fromEmbeddedRecord(a) {
+							same = false
+						}
+					} else if a != ssa.Value(host.Params[i]) {
+						same = false
+					}
+				}
+				// its error is returned
+				errRet := false
+				for _, ref := range *c.Referrers() {
+					if ret, ok := ref.(*ssa.Return); ok && ret.Results[0] == ssa.Value(c) {
+						errRet = true
+					}
+				}
+				if same && errRet && !li.blocks[b] {
+					okRec = true
+					c15EmbedsAll(w, r, name, host, c)
+				}
+			}
+		}
+	}
+	r.Check(okRec, "C15-H4", name+"#embeds", w.FnPos(host), "collected embedded structs are processed by recursion into the same map, errors returned", "embedded structs are not merged by recursing over the collected list with the same map")
+}
+
+// c15ClassifyRegion: every way of leaving the act-reaching part of the region
+// without performing the act either skips the field under one of the
+// recognised conditions or ends the walk with an error.
+func c15ClassifyRegion(w *World, r *Recorder, name string, rg h4Region, codec string, populate bool, classes map[string]bool) {
+	fn, act, omitPhi := rg.fn, rg.act, rg.omit
+	// reachability within one field's handling
 	reachesAct := map[*ssa.BasicBlock]bool{}
 	var dfs func(b *ssa.BasicBlock) bool
 	visiting := map[*ssa.BasicBlock]int{}
@@ -562,7 +771,7 @@ func c15Walker(w *World, r *Recorder, name string) {
 		if b == act {
 			return true
 		}
-		if b == header || !li.blocks[b] {
+		if rg.isCont(b) || !rg.in(b) {
 			return false
 		}
 		if v, ok := visiting[b]; ok {
@@ -581,13 +790,9 @@ func c15Walker(w *World, r *Recorder, name string) {
 		reachesAct[b] = res
 		return res
 	}
-	dfs(header.Succs[0])
+	dfs(rg.start)
 	reachesAct[act] = true
 
-	omitOK, omitWhy := omitDefinition(omitPhi)
-	r.Check(omitPhi != nil && omitOK, "C15-H4", name+"#omitempty-definition", w.FnPos(fn), "isOmitEmpty is true only via option == \"omitempty\" over the options after the first", "isOmitEmpty is not defined as 'some option after the key equals \"omitempty\"': "+omitWhy)
-
-	classes := map[string]bool{}
 	type step = walkStep
 	// follow a path that has left the act-reaching region until it continues
 	// with the next field (skip) or returns (error)
@@ -599,7 +804,7 @@ func c15Walker(w *World, r *Recorder, name string) {
 		}
 		last := conds[len(conds)-1]
 		switch {
-		case s == header || isLatch(s, latches):
+		case rg.isCont(s):
 			cls := classifySkipPath(w, conds, omitPhi, codec, populate)
 			if strings.HasPrefix(cls, "?") {
 				r.Refute("C15-H4", fmt.Sprintf("%s#skip-edge@b%d/%d", name, last.b.Index, last.succ), w.InstrPos(last.ifi), "a field is skipped under a condition that is none of {embedded, untagged, \"-\", omitempty∧zero / absent∧omitempty}: "+cls)
@@ -607,7 +812,7 @@ func c15Walker(w *World, r *Recorder, name string) {
 			}
 			classes[cls] = true
 			r.Prove("C15-H4", fmt.Sprintf("%s#skip-edge:%s", name, cls), w.InstrPos(last.ifi), "field skipped because "+cls, true)
-		case !li.blocks[s] || returnsError(s, li):
+		case rg.isFail(s):
 			if populate && len(conds) >= 2 && isOmitTest(last.ifi, omitPhi) && last.succ == 1 && isGetAbsent(conds[len(conds)-2]) {
 				classes["absent-mandatory-error"] = true
 			}
@@ -621,9 +826,8 @@ func c15Walker(w *World, r *Recorder, name string) {
 			}
 		}
 	}
-	_ = follow
-	for b := range li.blocks {
-		if !reachesAct[b] || b == act {
+	for _, b := range fn.Blocks {
+		if !rg.in(b) || !reachesAct[b] || b == act {
 			continue
 		}
 		ifi, ok := b.Instrs[len(b.Instrs)-1].(*ssa.If)
@@ -637,53 +841,6 @@ func c15Walker(w *World, r *Recorder, name string) {
 			follow(s, []step{{b, ifi, i}}, 0)
 		}
 	}
-	want := []string{"embedded", "untagged", "dash"}
-	if populate {
-		want = append(want, "absent∧omitempty", "absent-mandatory-error")
-	} else {
-		want = append(want, "omitempty∧zero")
-	}
-	for _, c := range want {
-		if !classes[c] {
-			what := map[string]string{
-				"embedded": "embedded structs are not left to the recursion", "untagged": "fields without the codec's tag are not skipped",
-				"dash": "a field tagged \"-\" is not skipped", "omitempty∧zero": "a zero omitempty field is not omitted",
-				"absent∧omitempty": "an absent omitempty field is not tolerated", "absent-mandatory-error": "a missing key without omitempty is not an error",
-			}[c]
-			r.Refute("C15-H4", name+"#missing:"+c, w.FnPos(fn), what)
-		}
-	}
-	// recursion over collected embeds with the same map
-	okRec := false
-	for _, b := range fn.Blocks {
-		for _, in := range b.Instrs {
-			if c, ok := in.(*ssa.Call); ok && c.Call.StaticCallee() == fn {
-				same := true
-				for i, a := range c.Call.Args {
-					ts := a.Type().String()
-					if ts == "reflect.Type" || ts == "reflect.Value" {
-						if !fromEmbeddedRecord(a) {
-							same = false
-						}
-					} else if a != ssa.Value(fn.Params[i]) {
-						same = false
-					}
-				}
-				// its error is returned
-				errRet := false
-				for _, ref := range *c.Referrers() {
-					if ret, ok := ref.(*ssa.Return); ok && ret.Results[0] == ssa.Value(c) {
-						errRet = true
-					}
-				}
-				if same && errRet && !li.blocks[b] {
-					okRec = true
-					c15EmbedsAll(w, r, name, fn, c)
-				}
-			}
-		}
-	}
-	r.Check(okRec, "C15-H4", name+"#embeds", w.FnPos(fn), "collected embedded structs are processed by recursion into the same map, errors returned", "embedded structs are not merged by recursing over the collected list with the same map")
 }
 
 // c15EmbedsAll: the recursion over the collected embedded structs visits every
